@@ -31,7 +31,10 @@ EXPECT = {
     'c12c_context_children_remove_while_iterating': ['C12', 'C18'],
     'c19b_dead_flag_set_by_frontend': ['C19', 'C04'],
     'c07c_pending_miscount_on_enqueue_death': ['C07', 'C08'],
-    'c01d_is_child_by_recycled_ident': ['C01', 'C04'],
+    'c01d_is_child_by_recycled_ident': ['C01', 'C04', 'C16'],
+    'c12d_no_end_marker_on_connection_closed': ['C12', 'C06'],
+    'c20d_server_side_pid_not_set_after_start': ['C20', 'C12'],
+    'c10d_header_topup_loop_without_eof_check': ['C10', 'C11'],
 }
 # changes that are harmless on the current HEAD by construction (a later fix: commit made the trigger unreachable)
 NEUTRALISED = {
